@@ -268,26 +268,36 @@ func checkC03(c c03Case) error {
 			u   cose.UnprotectedHeader
 			raw []byte
 		}
-		var keep []saved
-		for _, h := range layers {
-			keep = append(keep, saved{h.Unprotected, h.RawUnprotected})
-			nu := cose.UnprotectedHeader{}
-			for k, v := range h.Unprotected {
-				nu[k] = v
+		// three rounds: without an alg among the added parameters, with the algorithm of the verifier at
+		// position 0, with another algorithm (label 1 in the unprotected bucket is not where alg is looked up)
+		for round := 0; round < 3; round++ {
+			var keep []saved
+			for _, h := range layers {
+				keep = append(keep, saved{h.Unprotected, h.RawUnprotected})
+				nu := cose.UnprotectedHeader{}
+				for k, v := range h.Unprotected {
+					nu[k] = v
+				}
+				nu[int64(4)] = int64(5)                // kid of the wrong type
+				nu[int64(2)] = []any{int64(4)}         // crit does not belong here
+				nu[int64(6)] = []byte{1}               // Partial IV (next to an IV the protected bucket may hold)
+				nu[int64(5)] = []byte{2}               // and an IV
+				nu["verif-unserialisable"] = func() {} // nothing the encoder can write
+				switch round {
+				case 1:
+					nu[int64(1)] = cose.Algorithm(c.VKeys[0].Alg)
+				case 2:
+					nu[int64(1)] = cose.Algorithm(-65000 - c.VKeys[0].Alg)
+				}
+				h.Unprotected, h.RawUnprotected = nu, nil
 			}
-			nu[int64(4)] = int64(5)                // kid of the wrong type
-			nu[int64(2)] = []any{int64(4)}         // crit does not belong here
-			nu[int64(6)] = []byte{1}               // Partial IV (next to an IV the protected bucket may hold)
-			nu[int64(5)] = []byte{2}               // and an IV
-			nu["verif-unserialisable"] = func() {} // nothing the encoder can write
-			h.Unprotected, h.RawUnprotected = nu, nil
-		}
-		after := m.verify(ext, vs...)
-		for i, h := range layers {
-			h.Unprotected, h.RawUnprotected = keep[i].u, keep[i].raw
-		}
-		if (before == nil) != (after == nil) {
-			return finding("unprotected-edit-changes-verdict", "an in-memory edit confined to the unprotected headers changed the verdict of Verify: before %v, after %v\nwire=%x", before, after, []byte(c.Wire))
+			after := m.verify(ext, vs...)
+			for i, h := range layers {
+				h.Unprotected, h.RawUnprotected = keep[i].u, keep[i].raw
+			}
+			if (before == nil) != (after == nil) {
+				return finding("unprotected-edit-changes-verdict", "an in-memory edit confined to the unprotected headers (round %d) changed the verdict of Verify: before %v, after %v\nwire=%x", round, before, after, []byte(c.Wire))
+			}
 		}
 		stats.Class("reverified-after-unprotected-edit")
 	}
